@@ -199,8 +199,11 @@ struct SimRunner : public CommandRunner {
     const VFile* f = disk->Get(path);
     if (!f) { r->missing.push_back(path); return; }
     r->read.emplace_back(path, f->content);
-    if (follow)
+    if (follow) {
       for (auto& inc : Directives(f->content, "#include")) ReadInto(r, inc, follow, seen);
+      // "#maybe x": read (and reported as a dependency) only if it exists, like __has_include or a wildcard
+      for (auto& inc : Directives(f->content, "#maybe")) if (disk->Get(inc)) ReadInto(r, inc, follow, seen);
+    }
   }
 
   bool StartCommand(Edge* edge) override {
